@@ -216,7 +216,12 @@ class CircularQueue:
         return self.size
 
     def maintain_last_element(self) -> None:
-        """Clear all elements except the last one."""
+        """Clear all elements except the last one.
+
+        :raises EmptyQueueError: Empty queue error exception
+        """
+        if self.is_empty():
+            raise EmptyQueueError()
         self.first = self.last
         self.count = 1
 
@@ -299,6 +304,11 @@ class AccuracyQueue(CircularQueue):
         """
         super().enqueue(value=value)
         self.num_true += np.count_nonzero(value)
+
+    def maintain_last_element(self) -> None:
+        """Clear all elements except the last one."""
+        super().maintain_last_element()
+        self.num_true = np.count_nonzero(self.queue[self.first])
 
 
 # FIXME: There seem to be a bug on the treap DS. Uncomment all  # pylint: disable=fixme
